@@ -2,6 +2,7 @@
 from .. import common as C
 from .. import impl, instgen
 from ..engine import Relation
+from .. import lpcommon
 
 REQ = ['Text.Import', 'Spec.ResultsSpec', 'Run.Results', 'Corr.C11Corr']
 
@@ -107,4 +108,59 @@ class ResultsSpec(Results):
         return 'printed statistics differ from the values recomputed from the file and the matching line'
 
 
-RELATIONS = [Results(), ResultsSpec()]
+def stats_block(txt):
+    i = txt.find('# matching statistics')
+    return None if i < 0 else txt[i:]
+
+
+class ResultsRun(lpcommon.LPRelation):
+    name = 'M_results_run'
+    kind = 'monitor'
+    requires = REQ + lpcommon.REQ
+    n_quick = 130
+    n_thorough = 900
+    describe = ('real Solver runs (all option kinds, load-balancing criteria over-represented, -stab, -pc): the '
+                'statistics block of get_results() and of get_results_long() must equal the block recomputed in Coq from '
+                'the instance file and the printed matching line alone; non-trivial = Optimal run with >= 2 assigned students')
+
+    def cases(self, ctx):
+        def names(rng):
+            k = rng.choice([1, 2, 2, 3])
+            pool = ['lmb', 'lmb', 'lsb', 'mincostlsb', 'maxsize', 'maxsize', 'minsize', 'gen', 'gre', 'mincost', 'minsqcost']
+            out = []
+            while len(out) < k:
+                c = rng.choice(pool)
+                if c not in out:
+                    out.append(c)
+            return out
+        n = self.n_thorough if ctx.thorough else self.n_quick
+        return lpcommon.gen_lp_cases(ctx, self.name, n, crit_names=names)
+
+    def observe(self, inp):
+        return lpcommon.lp_run(inp['text'], inp['argv'], getters=('get_results', 'get_results_long'))
+
+    def term(self, inp, obs):
+        if obs['exc'] or obs['status'] != 'Optimal':
+            return 'true'
+        terms = []
+        for (kind, txt), long in zip(obs['texts'], (False, True)):
+            if kind != 'ok':
+                return 'false'
+            m = impl.matching_line(txt)
+            b = stats_block(txt)
+            if m is None or b is None:
+                return 'false'
+            terms.append('c11_block %s %s %s %s %s %s' % (C.cstr(inp['text']), C.cz(inp['na']), C.cbool(inp['twopl']),
+                                                        C.czlist(m), C.cbool(long), C.cstr(b)))
+        return '(' + ' && '.join(terms) + ')'
+
+    def nontrivial(self, inp, obs):
+        m = self.matching(obs)
+        return obs.get('status') == 'Optimal' and m is not None and sum(1 for x in m if x) >= 2
+
+    def what(self, inp, obs):
+        return 'statistics printed by run %r on %r differ from the values recomputed from the file and the matching line' % (
+            inp['argv'], inp['text'])
+
+
+RELATIONS = [Results(), ResultsSpec(), ResultsRun()]
